@@ -86,17 +86,23 @@ func (c *Curve) FromCompressed(data []byte) (*Point, error) {
 		return c.OpIdentity(), nil
 	}
 
-	var one, u edwards25519Impl.Fp
-	one.SetOne()
+	var u edwards25519Impl.Fp
 	ok := u.SetBytes(data)
 	if ok == ct.False {
 		return nil, curves.ErrFailed.WithMessage("invalid compressed point")
 	}
+	return c.fromAffineX(&u)
+}
+
+// fromAffineX returns a point with the given affine x-coordinate (u), the point (0, 0) of order two for u = 0.
+func (*Curve) fromAffineX(u *edwards25519Impl.Fp) (*Point, error) {
+	var one edwards25519Impl.Fp
+	one.SetOne()
 
 	var n, d, dInv, y edwards25519Impl.Fp
-	n.Sub(&u, &one)
-	d.Add(&u, &one)
-	ok = dInv.Inv(&d)
+	n.Sub(u, &one)
+	d.Add(u, &one)
+	ok := dInv.Inv(&d)
 	if ok == ct.False {
 		return nil, curves.ErrFailed.WithMessage("invalid compressed point")
 	}
@@ -140,7 +146,7 @@ func (c *Curve) FromUncompressed(data []byte) (*Point, error) {
 
 // FromAffine builds a point from affine coordinates.
 func (c *Curve) FromAffine(x, y *BaseFieldElement) (*Point, error) {
-	p, err := c.FromCompressed(x.V.Bytes())
+	p, err := c.fromAffineX(&x.V)
 	if err != nil {
 		return nil, errs.Wrap(err).WithMessage("cannot deserialize point")
 	}
@@ -224,6 +230,12 @@ func (p *Point) AffineY() (*BaseFieldElement, error) {
 	w.Sub(&p.V.X, &p.V.T)
 	ok := wInv.Inv(&w)
 	if ok == 0 {
+		// X == T holds for the identity and for the point (0, 0) of order two, where Z + Y == 0 as well
+		if u.IsZero() == 1 {
+			var zero BaseFieldElement
+			zero.V.SetZero()
+			return &zero, nil
+		}
 		return nil, curves.ErrFailed.WithMessage("cannot get affine y")
 	}
 
